@@ -18,6 +18,30 @@ TEXT = {
              "Held on the executions observed, not a proof.",
         note="Trusts the spec codec in harness/src/oracle.rs (anchored on interop/fixtures), rustc, Miri.",
         ref="DESIGN.md §4 C01"),
+    "C02": dict(
+        technique="hostile-input runtime monitor: catch_unwind + child-process abort detection, 128-bit validity-predicate oracle; Miri",
+        text="Runtime monitoring: hostile byte strings (random, mutated valid frames, every truncation, the three 64-bit length "
+             "fields over boundary classes, wrapping sums) are fed to every slice parser and stream reader of the real library; an "
+             "independent 128-bit predicate decides which inputs may parse and what the parse must contain; panics are caught and "
+             "aborts are attributed through a child process that announces each case. Found and fixed D1/D2. Held on the inputs run.",
+        note="Trusts the predicate in harness/src/oracle.rs; readers only see declared sizes <=16 MiB or >=2^62 as the quantifier says.",
+        ref="DESIGN.md §4 C02"),
+    "C11": dict(
+        technique="reference-model runtime monitor: small-scope enumeration executed on the implementation + random 64-bit histories; Miri",
+        text="Runtime monitoring against a sequential reference model of the credit accounting written from the statement: all operation "
+             "sequences up to length 6 (quick) / 8 (thorough) over an 11-operation alphabet and three window/capacity settings are executed "
+             "on the real TransferControl and every observer is compared after each sequence; random histories up to 200 operations with "
+             "hostile 64-bit values check every step. The small scope is enumerated completely, the rest is sampled.",
+        note="Trusts the ~60-line model in harness/src/c11_13.rs; chunk lengths bounded by 2^48 as the quantifier says.",
+        ref="DESIGN.md §4 C11"),
+    "C13": dict(
+        technique="reference-model runtime monitor: small-scope enumeration executed on the implementation + random histories; Miri",
+        text="Runtime monitoring against a reference ring model (evict-oldest, keep-last, acceptance rule from the statement): all "
+             "push/resume/advance/cancel sequences up to length 7 (quick) / 8 (thorough) over a 9-operation alphabet and three capacities "
+             "(0, 4, 7 bytes) run on the real TransferControl; ring content, byte-identity, contiguity, capacity bound, resume acceptance, "
+             "replay tail, installed peer and single consumption of the pending resume are compared; random long histories are sampled.",
+        note="Trusts the model in harness/src/c11_13.rs; pushes abut (the documented precondition of push_replay).",
+        ref="DESIGN.md §4 C13"),
 }
 
 ALL = [f"C{i:02d}" for i in range(1, 20)]
